@@ -192,6 +192,7 @@ Definition sel_value (v : value) (name : list Z) : outcome value :=
   | VMap m => Ok (match assoc name m with Some x => (if is_null x then VNull else x) | None => VNull end)
   | VTime _ => Panic
   | VOpaque _ => Unk
+  | VStruct _ fs => match assoc name fs with Some x => Ok (if is_null x then VNull else x) | None => Panic end
   | _ => Ok VNull
   end.
 
